@@ -135,6 +135,9 @@ SPEC("pane.classes", "_make_init.<locals>.__init__",
           ["C14"], "set-record"),
          # __post_init__ runs exactly once for every instance created
          (lambda self, args, kwargs, sig: implies(has_attr(self, "__post_init__"), called(attr(self, "__post_init__")) == 1), ["C14"], "hook")],
+     # the hook is handed a complete instance: the set-field record exists when __post_init__ runs (PaneBase.__setattr__ inside
+     # the hook records into it), on the mapping path and on the constructor path alike
+     at_calls={"getattr(self, POST_INIT)": (lambda self: has_attr(self, "__pane_set__"), ["C14"])},
      invariants={
          0: lambda it, self, from_dict: forall(range(it), lambda j: getattr(self, key_at(from_dict, j)) == mget(from_dict, key_at(from_dict, j))),
          1: lambda it, self, bound_args, checked, set_fields:
@@ -143,3 +146,28 @@ SPEC("pane.classes", "_make_init.<locals>.__init__",
          and forall(range(slen(init_fields(self))), lambda i: shas(set_fields, sat(init_fields(self), i).name) ==
                     (i < it and truthy(sat(init_fields(self), i).init) and mhas(bound_args, sat(init_fields(self), i).name)))
          and forall_val(lambda n: implies(shas(set_fields, n), exists(range(slen(init_fields(self))), lambda i: sat(init_fields(self), i).name == n)))})
+
+
+# ---- _maybe_make_hash applies the table entry: "none" really sets __hash__ to None (a mutable class with value equality is
+# unhashable), "make" installs the generated hash, "leave" touches nothing, "raise" refuses the class --------------------------
+def explicit_hash(cls):
+    return not ((not mhas(old(cls.__dict__), "__hash__"))
+                or (is_none(mget(old(cls.__dict__), "__hash__")) and mhas(old(cls.__dict__), "__eq__")))
+
+
+def hash_rule(cls):
+    return std_hash_action(truthy(cls.__pane_info__.opts.unsafe_hash), truthy(cls.__pane_info__.opts.eq),
+                           truthy(cls.__pane_info__.opts.frozen), explicit_hash(cls))
+
+
+SPEC("pane.classes", "_maybe_make_hash",
+     shapes={**CLOSURE_SHAPES, "cls.__dict__": "map", "$_hash_action": "table", "opts": "rec:PaneOptions"}, mutable=["cls"], uses_old=True,
+     note="assumed: the module-level rule table _hash_action is never modified after import (its literal is read each run)",
+     requires=lambda cls, fields: not mhas(cls.__dict__, "__hash__") or not (mget(cls.__dict__, "__hash__") is MISSING),
+     returns_iff=(lambda cls, fields: hash_rule(cls) != "raise", ["C16"]),
+     ensures=[(lambda cls, fields: implies(hash_rule(cls) == "none", is_none(getattr(cls, "__hash__"))), ["C16"], "unhashable"),
+              # the installed function is the generated hash (proved above for ANY field list) closed over THIS field list
+              (lambda cls, fields: implies(hash_rule(cls) == "make",
+                                           closure_of(getattr(cls, "__hash__")) == "pane.classes:_make_hash.<locals>.__hash__"
+                                           and closure_free(getattr(cls, "__hash__"), "fields") is fields), ["C16"], "generated")],
+     raises=(lambda cls, fields, exc: exc_is(exc, TypeError), ["C16"]))
